@@ -104,7 +104,16 @@ def shared_headers(repo):
                 return False, "%d definitions of cappuccino::%s" % (len(fn), f)
             ps = [(x.get("name"), c.ty(x)) for x in fn[0]["inner"] if x.get("kind") == "ParmVarDecl"]
             body = [x for x in fn[0]["inner"] if x.get("kind") == "CompoundStmt"]
-            got = " ".join(c.show(x) for x in c.core(body[0])["a"]) if body else "<no body>"
+            stmts = c.core(body[0])["a"] if body else []
+            # a local type alias declares no object; the result is bool, so `x != 0` / `0 != x` of the integer x is the
+            # implicit integer-to-bool conversion written out ([conv.bool]) -- both are the same function
+            stmts = [x for x in stmts if not (x["k"] == "decls" and all(d["k"] in ("?TypeAliasDecl", "?TypedefDecl") for d in x["a"]))]
+            if len(stmts) == 1 and stmts[0]["k"] == "return" and stmts[0]["a"] and stmts[0]["a"][0]["k"] == "bin" and stmts[0]["a"][0]["n"] == "!=":
+                l, r = stmts[0]["a"][0]["a"]
+                zero = lambda z: z["k"] == "int" and str(z["n"]) == "0"     # noqa: E731
+                if zero(r) or zero(l):
+                    stmts = [dict(stmts[0], a=[l if zero(r) else r])]
+            got = " ".join(c.show(x) for x in stmts) if body else "<no body>"
             if ps != [("a", "cappuccino::allow")] or got != w:
                 return False, "cappuccino::%s%s is %s, expected %s" % (f, ps, got, w)
         en = [o for o in c.clang_objs(inc, "allow", "") if o.get("kind") == "EnumDecl" and o.get("name") == "allow"]
